@@ -8,19 +8,24 @@ import tempfile
 from ..common import Check, drive, uncps, cps
 from ..serial import outcome
 
-PATHS = ("yaml", "dicts", "merge", "files", "file1")
+PATHS = ("yaml", "dicts", "merge", "files", "file1", "hexnames")
 
 
 def uuid_of(k: int) -> str:
     return f"00000000-0000-4000-8000-{k:012d}"
 
 
-def doc_dict(d):
-    base = {"title": f"D{d['id']}", "name": f"n{d['name']}", "id": uuid_of(d["uid"])}
+def name_of(k, hexnames=False):
+    """A rule name; hexnames: a name that happens to read as a UUID (32 hexadecimal digits) - still a name."""
+    return "deadbeefdeadbeefdeadbeef%08x" % k if hexnames else f"n{k}"
+
+
+def doc_dict(d, hexnames=False):
+    base = {"title": f"D{d['id']}", "name": name_of(d["name"], hexnames), "id": uuid_of(d["uid"])}
     if d["kind"] == "rule":
         base.update({"logsource": {"category": "t"}, "detection": {"sel": {"f": f"v{d['id']}"}, "condition": "sel"}})
     else:
-        refs = [f"n{r['key']}" if r["by"] == "name" else uuid_of(r["key"]) for r in d["refs"]]
+        refs = [name_of(r["key"], hexnames) if r["by"] == "name" else uuid_of(r["key"]) for r in d["refs"]]
         base["correlation"] = {
             "type": "event_count",
             "rules": refs,
@@ -30,7 +35,7 @@ def doc_dict(d):
             "generate": bool(d["generate"]),
         }
         if d.get("arefs"):
-            base["correlation"]["aliases"] = {"al": {(f"n{r['key']}" if r["by"] == "name" else uuid_of(r["key"])): "f" for r in d["arefs"]}}
+            base["correlation"]["aliases"] = {"al": {(name_of(r["key"], hexnames) if r["by"] == "name" else uuid_of(r["key"])): "f" for r in d["arefs"]}}
     return base
 
 
@@ -40,13 +45,13 @@ def run_one(docs, perm, path):
     from sigma.backends.test import TextQueryTestBackend
     from sigma.exceptions import SigmaError
 
-    dicts = [doc_dict(docs[i - 1]) for i in perm]
-    r = {"perm": perm, "path": path, "ok": False, "exc": "", "sigma": False, "stage": "load", "order": [], "order0": [], "events": [], "out": []}
+    dicts = [doc_dict(docs[i - 1], path == "hexnames") for i in perm]
+    r = {"perm": perm, "path": path, "grp": 1 if path == "hexnames" else 0, "ok": False, "exc": "", "sigma": False, "stage": "load", "order": [], "order0": [], "events": [], "out": []}
     tmp = None
     try:
         if path == "yaml":
             coll = SigmaCollection.from_yaml(yaml.safe_dump_all(dicts))
-        elif path == "dicts":
+        elif path in ("dicts", "hexnames"):
             coll = SigmaCollection.from_dicts(dicts)
         elif path == "merge":
             coll = SigmaCollection.merge([SigmaCollection.from_dicts([d], resolve_references=False) for d in dicts])
